@@ -1,4 +1,6 @@
 import Check.P4
+import Check.C06
+import Check.C07
 import Upf.Gen.Locks
 /-! C11 acceptor: sequential cross-association histories on UP4 go through the UP4 model; concurrent streams are replayed
 association by association (BESS: any serial order yields the same tables — `Tab.interleave_eq_seq`), and the quiescent
@@ -60,7 +62,15 @@ def toVerdicts (keep : List String) (fs : List Finding) : List Verdict :=
     else if keep.contains f.prop then some (.oracle s!"[{f.prop}] {f.msg}")
     else none
 
+/-- a line of the shared allocators' concurrency families (UE address pool, TEIDs): decided by their own acceptors -/
+def allocLine (n : Nat) (line : String) : Verdict :=
+  let v := if line.startsWith "tconc" then C07.check n line else C06.check n line
+  match v with
+  | .oracle m => .oracle s!"[C11] shared allocator under concurrent associations: {m}"
+  | v => v
+
 def step (st : St) (n : Nat) (line : String) : St × List Verdict :=
+  if !line.startsWith "{" then (st, [allocLine n line]) else
   match Json.parse line with
   | .error e => (st, [.bad s!"json {e}"])
   | .ok j =>
